@@ -11,12 +11,12 @@ import (
 // obligations: a packet within every keep-alive period K while active, a
 // wake-up within every sleep duration it announced.
 
-// VH_C12_sleep(k, cycles): keep-alive K = k seconds. The client connects, stays
+// VH_C12_sleep(k, cycles, dfix): keep-alive K = k seconds (dfix > 0: every announced sleep duration is dfix seconds). The client connects, stays
 // active for a symbolic while (< K), then sleeps `cycles` times: DISCONNECT(d)
 // with d symbolic (1..3K seconds), wake-up PINGREQ after a symbolic time <= d.
 // Every gap between two consecutive packets to the broker, and from the last
 // one to the end of the history, is at most 1.5 K.
-func VH_C12_sleep(k int, cycles int) {
+func VH_C12_sleep(k int, cycles int, dfix int) {
 	s := vStartSessionOpt(false, nil, nil, nil, true)
 	s.reach(stActive, uint16(k), 0)
 	K := int64(k) * int64(time.Second)
@@ -28,6 +28,10 @@ func VH_C12_sleep(k int, cycles int) {
 	for c := 0; c < cycles; c++ {
 		d := vNondetU16("sleep_duration")
 		vAssume(vAnd(d >= 1, int(d) <= 3*k))
+		if dfix > 0 {
+			// (cheaper instances: the announced duration is fixed, the wake-up time stays symbolic)
+			vAssume(int(d) == dfix)
+		}
 		vLabel("d", uint64(d))
 		vLabel("k", uint64(k))
 		vLabel("no_pinger", vB2U(int(d) <= k))
